@@ -4,7 +4,8 @@
    source (anchor suffix, remainder group, default placeholder regex). *)
 From Coq Require Import List NArith Bool.
 Import ListNotations.
-Require Import Verif.Lib.Wire Verif.Lib.PathNorm Verif.Lib.Utf8 Verif.Gen.Facts_C01 Verif.Model.C01 Verif.Proofs.C01.
+Require Import Verif.Lib.Wire Verif.Lib.PathNorm Verif.Lib.Utf8 Verif.Gen.Facts_C01 Verif.Model.C01 Verif.Proofs.C01
+  Verif.Proofs.C01_b.
 Local Close Scope N_scope.
 Local Open Scope nat_scope.
 
@@ -144,3 +145,97 @@ Theorem C01_request_spec : forall O ds method raw m sts,
      end.
 Proof. exact request_spec. Qed.
 Print Assumptions C01_request_spec.
+
+(* ---- second round *)
+(* RoutesMapper.connect folded over ANY declarations, for any parse function: a connect call
+   answers Ok exactly when its pattern compiles, and routelist holds, in order, the routes of
+   the declarations that compile, are not static and are the last declaration of their name
+   (a later declaration of the name removes the route even when it does not compile) *)
+Theorem C01_connect_last_wins_general : forall parse ds m sts,
+  connect_all_with parse empty_mapper 0 ds = (m, sts) ->
+  map is_ok sts = map (parses_b parse) (number 0 ds)
+  /\ routelist m = map (mkr_w parse) (filter (good parse) (last_wins (number 0 ds))).
+Proof. exact connect_last_wins_general. Qed.
+Print Assumptions C01_connect_last_wins_general.
+
+(* end to end without "every declaration compiles" (only: none is outside the sublanguage) *)
+Theorem C01_request_spec_general : forall O ds method raw m sts,
+  sup_with (parse_core O (Some spec_default_hole)) ds = true ->
+  connect_all O empty_mapper 0 ds = (m, sts) ->
+  spec_request_g O ds method raw =
+  match fst (dispatch_request O m method raw) with
+  | ODecodeError => SDecodeError
+  | OMatch r d => SMatch r d
+  | ONone => SNone
+  | OConfigError => SNothing
+  end.
+Proof. exact request_spec_general. Qed.
+Print Assumptions C01_request_spec_general.
+
+(* multi-atom placeholder regexes: the matcher (per-atom greedy backtracking, entries of one
+   placeholder concatenated) is the head of the longest-first enumeration over the atoms *)
+Theorem C01_match_spec_m : forall O p s, match_pat_m O p s = spec_match_m O p s.
+Proof. exact match_spec_m. Qed.
+Print Assumptions C01_match_spec_m.
+
+(* what ./check runs: multi-atom parser + mapper = the declarative specification *)
+Theorem C01_request_spec_m : forall O ds method raw m sts,
+  sup_with (spec_parse_m O) ds = true ->
+  connect_all_with (parse_pattern_m O) empty_mapper 0 ds = (m, sts) ->
+  spec_request_m O ds method raw =
+  match fst (dispatch_request_with (match_pat_m O) m method raw) with
+  | ODecodeError => SDecodeError
+  | OMatch r d => SMatch r d
+  | ONone => SNone
+  | OConfigError => SNothing
+  end.
+Proof. exact request_spec_m. Qed.
+Print Assumptions C01_request_spec_m.
+
+(* route_re finds something exactly when the text contains a well-formed {..} placeholder *)
+Theorem C01_has_brace_iff : forall s,
+  has_brace s = true <->
+  exists pre body rest, s = pre ++ c_lbrace :: body ++ c_rbrace :: rest /\ body_ok body = true.
+Proof. exact has_brace_iff. Qed.
+Print Assumptions C01_has_brace_iff.
+
+(* parser soundness: what a successfully parsed pattern denotes *)
+Theorem C01_parse_core_sound : forall O dflt src p,
+  parse_core O dflt src = Ok p ->
+  exists r3 rem pieces,
+    ((normalise O src = r3 /\ rem = [])
+     \/ (normalise O src = r3 ++ c_star :: rem /\ ~ In c_star rem /\ word_then_end O rem = true))
+    /\ star p = match rem with [] => None | _ => Some rem end
+    /\ match rem with [] => True | _ => name_check rem = Ok tt end
+    /\ flat_map piece_src pieces = r3 /\ Forall piece_wf pieces
+    /\ pieces_items dflt pieces (items p)
+    /\ has_dup (pat_names p) = false.
+Proof. exact parse_core_sound. Qed.
+Print Assumptions C01_parse_core_sound.
+
+(* printing round trip for canonical patterns *)
+Theorem C01_print_parse_roundtrip : forall O p,
+  canonical p -> parse_core O (Some spec_default_hole) (print_pat p) = Ok p.
+Proof. exact print_parse_roundtrip. Qed.
+Print Assumptions C01_print_parse_roundtrip.
+
+(* ---- third round: histories *)
+(* matcher() returns a freshly built dictionary (regenerated fact), hence the model of a history
+   of dispatches is the pointwise stateless dispatch: no dispatch depends on earlier ones *)
+Theorem C01_history_independent : forall mt m pre1 pre2 s l1 l2,
+  hist_outcomes mt m (pre1 ++ [s]) = Some l1 -> hist_outcomes mt m (pre2 ++ [s]) = Some l2 ->
+  last l1 ONone = last l2 ONone
+  /\ last l1 ONone = fst (dispatch_request_with mt m (snd s) (fst s)).
+Proof. exact history_independent. Qed.
+Print Assumptions C01_history_independent.
+
+Theorem C01_history_spec_m : forall O ds steps m sts l,
+  sup_with (spec_parse_m O) ds = true ->
+  connect_all_with (parse_pattern_m O) empty_mapper 0 ds = (m, sts) ->
+  hist_outcomes (match_pat_m O) m steps = Some l ->
+  spec_hist (spec_parse_m O) (spec_match_m O) ds steps =
+  map (fun o => match o with
+                | ODecodeError => SDecodeError | OMatch r d => SMatch r d
+                | ONone => SNone | OConfigError => SNothing end) l.
+Proof. exact history_spec_m. Qed.
+Print Assumptions C01_history_spec_m.
